@@ -60,7 +60,7 @@ def rule_postlex_cons(ctx: RuleContext, p: Program, rid: str) -> None:
     lb = loop.body
     guard = lb[0]
     if not (isinstance(guard, ast.If) and isinstance(guard.test, ast.Compare) and isinstance(guard.test.ops[0], ast.NotEq)
-            and norm(guard.test.left) == f'{tok}.type' and norm(guard.test.comparators[0]) == 'self._NEWLINE_INDENT_COMMENT'):
+            and {norm(guard.test.left), norm(guard.test.comparators[0])} == {f'{tok}.type', 'self._NEWLINE_INDENT_COMMENT'}):
         raise AnalysisError('POSTLEX-CONS: pass-through guard `if token.type != self._NEWLINE_INDENT_COMMENT` not found first')
     passthru = [norm(s) for s in guard.body]
     ctx.check(passthru == [f'yield {tok}', 'continue'], rid, 'parser:PostLex.process: pass-through', f'{passthru}',
